@@ -150,6 +150,82 @@ theorem propagate_spec (path : List Elem) (lo hi : Option Int) (d : Int) (l si :
       else .ok (si.filter (inAny (commonRange (ampBands path) lo hi d))) :=
   propagate_spec' path lo hi d l si hmk hp hwf
 
+def exC : Band := { fmin := 191300000000000, fmax := 196100000000000 }
+def exL : Band := { fmin := 186000000000000, fmax := 190000000000000 }
+
+/-! ### how the elements of a path are built: `Elem.WF` is a consequence, not a hypothesis -/
+
+/-- **loader** (`network_from_json` + `Multiband_amplifier.__init__`): when the bands of the library entry all belong to
+listed amplifiers (untyped element; typed element without an `amplifiers` list; typed element listing every member)
+and the amplifier bands are pairwise disjoint, the element is well-formed and its `__call__` bands are exactly the
+listed amplifiers' bands in list order -/
+theorem loaded_multiband_wf (libBands : Option (List Band)) (ampBands : List Band) (e : Elem)
+    (h : loadMultiband libBands ampBands = .ok e)
+    (hlib : ∀ l, libBands = some l → l.Nodup ∧ (ampBands ≠ [] → ∀ b ∈ l, b ∈ ampBands) ∧
+      (ampBands = [] → l.Pairwise BandDisj))
+    (hd : ampBands.Pairwise BandDisj) : e.WF := by
+  simp only [loadMultiband] at h
+  cases hf : mbFold { bands := loadBands0 libBands, amps := [] } (loadAmps libBands ampBands) with
+  | error e' => rw [hf] at h; exact absurd h (by simp)
+  | ok s =>
+    rw [hf] at h; simp only [Except.ok.injEq] at h; subst h
+    cases libBands with
+    | none => exact (mbFold_wf [] ampBands s hf List.nodup_nil (by simp) hd).1
+    | some l =>
+      obtain ⟨hn, hsub, hdl⟩ := hlib l rfl
+      cases ampBands with
+      | nil => exact (mbFold_wf l l s hf hn (fun b hb => hb) (hdl rfl)).1
+      | cons a r => exact (mbFold_wf l (a :: r) s hf hn (hsub (by simp)) hd).1
+
+/-- a typed element created WITHOUT an `amplifiers` list (one amplifier per band of the library entry) is well-formed
+as soon as the library entry's member bands are pairwise disjoint -/
+theorem loaded_typed_default_wf (members : List Band) (e : Elem) (hd : (dedupBands members).Pairwise BandDisj)
+    (h : loadMultiband (some (dedupBands members)) [] = .ok e) : e.WF :=
+  loaded_multiband_wf _ [] e h
+    (fun l hl => by
+      simp only [Option.some.injEq] at hl; subst hl
+      exact ⟨dedupBands_nodup members, fun h => absurd rfl h, fun _ => hd⟩)
+    List.Pairwise.nil
+
+/-- before the design a typed element that lists only SOME of the member amplifiers is not well-formed: the library
+band without amplifier is still in `params.bands` (the design step overwrites `params.bands`, see below) -/
+theorem loaded_partial_not_wf :
+    ∃ e, loadMultiband (some [exC, exL]) [exC] = .ok e ∧ ¬ e.WF := by
+  refine ⟨.multiband [exC, exL] [exC], by decide, ?_⟩
+  intro h
+  have := h.2.2 { f := 188000000000000, slot := 50000000000, baud := 32000000000, pay := 0 }
+  revert this; decide
+
+/-- **auto-design** (`set_egress_amplifier`): `node.params.bands = [a.params.bands[0] for a in amplifiers]`, so the
+designed element is well-formed whenever the bands of the selected amplifier varieties are pairwise disjoint – also for
+an element that was loaded with a partial amplifier list -/
+theorem designed_multiband_wf (existing : List String) (designBands : List Band) (sel : String → Band)
+    (hd : ((if existing.isEmpty then (designDict designBands).map (fun kv => kv.1) else existing).map sel).Pairwise
+      BandDisj) : (designMultiband existing designBands sel).WF :=
+  ⟨hd, hd, fun _ => rfl⟩
+
+/-- what a designed path consists of: single-band amplifiers (`EdfaParams`: exactly one band), multiband amplifiers as
+left by `set_egress_amplifier` (with disjoint selected bands), and elements that do not touch the channel set -/
+def Elem.Designed (e : Elem) : Prop :=
+  (∃ b, e = .edfa [b]) ∨
+  (∃ existing designBands sel, e = designMultiband existing designBands sel ∧
+    ((if existing.isEmpty then (designDict designBands).map (fun kv => kv.1) else existing).map sel).Pairwise BandDisj) ∨
+  e = .other
+
+theorem designed_wf (e : Elem) (h : e.Designed) : e.WF := by
+  rcases h with ⟨b, rfl⟩ | ⟨ex, dbs, sel, rfl, hd⟩ | rfl
+  · exact ⟨b, rfl⟩
+  · exact designed_multiband_wf ex dbs sel hd
+  · trivial
+
+/-- **C07 end to end on every designed path, without a well-formedness hypothesis** -/
+theorem propagate_spec_designed (path : List Elem) (lo hi : Option Int) (d : Int) (l si : List Ch)
+    (hmk : mkSpectrum l = .ok si) (hp : Pos l) (hdes : ∀ e ∈ path, e.Designed) :
+    propagate path lo hi d l =
+      if si.filter (inAny (commonRange (ampBands path) lo hi d)) = [] then .error .value
+      else .ok (si.filter (inAny (commonRange (ampBands path) lo hi d))) :=
+  propagate_spec' path lo hi d l si hmk hp (fun e he => designed_wf e (hdes e he))
+
 /-- a rejected spectrum is rejected by the propagation with the same error -/
 theorem propagate_rejects (path : List Elem) (lo hi : Option Int) (d : Int) (l : List Ch) (e : Err)
     (h : mkSpectrum l = .error e) : propagate path lo hi d l = .error .spectrum := by
@@ -159,8 +235,6 @@ theorem propagate_rejects (path : List Elem) (lo hi : Option Int) (d : Int) (l :
 
 /-! ### non-vacuity: concrete C+L spectra and a mixed single-band and multi-band path (all hypotheses decidable) -/
 
-def exC : Band := { fmin := 191300000000000, fmax := 196100000000000 }
-def exL : Band := { fmin := 186000000000000, fmax := 190000000000000 }
 /-- unsorted input: two C-band channels (one edge-aligned), one L-band channel, one in the gap between the bands -/
 def exChans : List Ch :=
   [{ f := 193100000000000, slot := 50000000000, baud := 32000000000, pay := 0 },
